@@ -56,7 +56,12 @@ package results
 //@   ensures[one-location-per-match] len(r.FindLocVec) == old(len(r.FindLocVec)) + (result ? 1 : 0)
 //@   ensures[plain-name-match-is-complete] old(r.findSymbol) != nil && varInfo != nil && streq(old(r.fileName), fileName) && !excludeRequire
 //@        && len(old(r.referSuffVec)) == 1 && streq(old(r.referSuffVec[0]), strName) && len(strPreExp) == 0
-//@        && sameLoc(old(r.findSymbol.Loc), old(varInfo.Loc)) ==> result
+//@        && sameLoc(old(r.findSymbol.Loc), old(varInfo.Loc))
+//@        && (typeis(nameExp, "*ast.NameExp") ==> streq(as(nameExp, "*ast.NameExp").Name, old(r.referSuffVec[0]))) ==> result
+// an occurrence is spelled with the name searched: the `self` of a colon method, which callers resolve to the method's
+// table, is not an occurrence of the table variable (rename rewrote it until fix 1bf1f02)
+//@   ensures[plain-name-occurrence-is-spelled-with-the-name] result && len(old(r.referSuffVec)) == 1 && !excludeRequire && typeis(nameExp, "*ast.NameExp")
+//@        ==> streq(as(nameExp, "*ast.NameExp").Name, old(r.referSuffVec[0]))
 //@   ensures[target-unchanged] r.findSymbol == old(r.findSymbol) && r.fileName == old(r.fileName) && r.referSuffVec == old(r.referSuffVec)
 //@ end
 
